@@ -160,6 +160,32 @@ def task_lsearch(ctx, arg):
     searches = [dict(name='lsearch/' + k, cases=n, seconds=round(time.time() - t, 2), props=limb_props(k)) for k, n in sorted(stats.items())]
     return dict(violations=violations, searches=searches)
 
+def task_csearch(ctx, arg):
+    """encoder / decoder search on the real public API (all six decoders, all six encoders)"""
+    import search_codec
+    drv = get_driver(arg if arg in ('debug', 'release') else 'debug')
+    t = time.time()
+    stats, viols = search_codec.search(drv, ctx.seed, ctx.tier)
+    def props(v):
+        if 'encode' in v['fid'] or '_to_' in v['fid']:
+            return ['C10']
+        p = ['C08']
+        if 'twist' in v['failure'] or 'near-miss' in v['failure']:
+            p.append('C09')
+        if 'valid' in v['failure'] or 'roundtrip' in v['failure']:
+            p.append('C10')
+        if 'random-x' in v['failure'] or 'rejects' in v['failure']:
+            p.append('C14')
+        if 'panic' in v['failure']:
+            p.append('C18')
+        return p
+    violations = [dict(obligation='codec/' + v['fid'], props=props(v), summary='%s(%s...) expected %s observed %s [%s]' % (
+        v['hook'], v['args'][0][:40], str(v['expected'])[:40], str(v['observed'])[:40], v['failure']),
+        replay=dict(kind='hook', profile=drv.profile, **v), input_class=v['failure']) for v in viols]
+    searches = [dict(name='csearch/' + k, cases=n, seconds=round(time.time() - t, 2),
+                     props=['C10'] if 'encode' in k else ['C08', 'C09', 'C10', 'C14', 'C18']) for k, n in sorted(stats.items())]
+    return dict(violations=violations, searches=searches)
+
 # ---------------------------------------------------------------------------------------------
 def setup():
     """MANIFEST.setup_cmd: build what can be built ahead of time (offline)."""
